@@ -17,12 +17,9 @@ inductive Res (α : Type) where
   | ok (a : α)
   | err (k : EK)
   | panic
-  deriving Repr
+  deriving Repr, DecidableEq
 
 namespace Res
-
-instance [DecidableEq α] : DecidableEq (Res α) := fun a b => by
-  cases a <;> cases b <;> simp <;> exact inferInstance
 
 @[inline] def bind : Res α → (α → Res β) → Res β
   | ok a, f => f a
